@@ -45,6 +45,9 @@ SimStep ==
        /\ \E c \in Conns : st.cs[c].gated /\ WillExec(c)
     \/ /\ turn = "timer"
        /\ TimerSteps
+    \/ /\ turn = "traffic" /\ OpenConns # {}
+       /\ \E c \in Conns : st.cs[c].st \in {"closing", "done"}      \* only worth it once somebody has left something behind
+       /\ Traffic(Pick(OpenConns))
     \/ UNCHANGED <<st, hist>>          \* the drawn step was not enabled: draw again
 
 SimNext == /\ ~st.crashed /\ Len(hist) < HistLen /\ ~Spent
